@@ -335,15 +335,106 @@ def fromVec {α : Type} (L : LeafCodec α) (reg : List Entry) (maxMsg : Nat) (bs
         | none => .error .decode
         | some (v, rest) => if rest.isEmpty then .ok (.msg i v) else .error .trailing
 
-/-- the typed `DeBolt::from_vec` of one struct (`UnexpectedType`, no length check) -/
-def fromVecTyped {α : Type} (L : LeafCodec α) (e : Entry) (bs : Bytes) : Option (Val α) :=
+inductive TypedRes (α : Type)
+  | ok (v : Val α)
+  | err
+  | panic
+deriving DecidableEq, Repr
+
+/-- the typed `DeBolt::from_vec` generated by `#[derive(SerBolt)]` (no length check).  With trailing
+    bytes the generated code evaluates `cursor.position() as usize - ser.len()` for the error value:
+    `position < len`, so the subtraction underflows — a panic in builds with overflow checks. -/
+def fromVecTyped {α : Type} (L : LeafCodec α) (e : Entry) (bs : Bytes) : TypedRes α :=
+  match splitAt? 2 bs with
+  | none => .err
+  | some (a, body) =>
+    if beVal a ≠ e.id then .err else
+    match dec L e.ty body with
+    | none => .err
+    | some (v, rest) => if rest.isEmpty then .ok v else .panic
+
+/-! ### length-framed stream (`msgs::write`, `write_vec`, `read`, `read_message`, `read_raw`) -/
+
+/-- `write_vec` / `write`: u32 BE length (`buf.len() as u32`) + bytes -/
+def writeVec (bs : Bytes) : Bytes := beBytes 4 bs.length ++ bs
+
+/-- `msgs::read`: u32 length, then `from_reader` over a `Take` of that length.  If the stream holds at
+    least `n` bytes the `Take` shows exactly the first `n`, which is `from_vec` of that slice; if it is
+    shorter the decode either hits EOF or ends with `limit > 0`. Bytes after the frame stay unread. -/
+def readFrame {α : Type} (L : LeafCodec α) (reg : List Entry) (maxMsg : Nat) (bs : Bytes) :
+    Except WireErr (Decoded α) :=
+  match splitAt? 4 bs with
+  | none => .error .decode
+  | some (a, r) =>
+    let n := beVal a
+    if n < 2 then .error .shortRead
+    else if n > maxMsg then .error .tooLarge
+    else if n ≤ r.length then fromVec L reg maxMsg (r.take n)
+    else
+      match splitAt? 2 r with
+      | none => .error .decode
+      | some (t, body) =>
+        match dispatch reg (beVal t) with
+        | none => .error .trailing
+        | some i =>
+          match reg[i]? with
+          | none => .error .decode
+          | some e =>
+            match dec L e.ty body with
+            | none => .error .decode
+            | some _ => .error .trailing
+
+/-- `msgs::read_message::<T>`: length check, `UnexpectedType`, decode, `TrailingBytes` (no underflow here) -/
+def readMessageTyped {α : Type} (L : LeafCodec α) (maxMsg : Nat) (e : Entry) (bs : Bytes) : Option (Val α) :=
+  match splitAt? 4 bs with
+  | none => none
+  | some (a, r) =>
+    let n := beVal a
+    if n < 2 ∨ n > maxMsg ∨ r.length < n then none else
+    match splitAt? 2 (r.take n) with
+    | none => none
+    | some (t, body) =>
+      if beVal t ≠ e.id then none else
+      match dec L e.ty body with
+      | some (v, []) => some v
+      | _ => none
+
+/-- `read_raw`: u32 length + `read_exact` (no length check) -/
+def readRaw (bs : Bytes) : Option Bytes :=
+  match splitAt? 4 bs with
+  | none => none
+  | some (a, r) => (splitAt? (beVal a) r).map (·.1)
+
+/-! ### serial headers (`write_serial_request_header` … `read_serial_response_header`) -/
+
+def writeSerialRequest (seq : Nat) (peer : Bytes) (dbid : Nat) : Bytes :=
+  beBytes 2 0xaa55 ++ beBytes 2 seq ++ peer ++ beBytes 8 dbid
+
+def readSerialRequest (bs : Bytes) : Option (Nat × Bytes × Nat) :=
   match splitAt? 2 bs with
   | none => none
-  | some (a, body) =>
-    if beVal a ≠ e.id then none else
-    match dec L e.ty body with
-    | some (v, []) => some v
-    | _ => none
+  | some (m, r) =>
+    if beVal m ≠ 0xaa55 then none else
+    match splitAt? 2 r with
+    | none => none
+    | some (s, r) =>
+      match splitAt? 33 r with
+      | none => none
+      | some (p, r) =>
+        match splitAt? 8 r with
+        | none => none
+        | some (d, _) => some (beVal s, p, beVal d)
+
+def writeSerialResponse (seq : Nat) : Bytes := beBytes 2 0x5aa5 ++ beBytes 2 seq
+
+def readSerialResponse (bs : Bytes) (expected : Nat) : Bool :=
+  match splitAt? 2 bs with
+  | none => false
+  | some (m, r) =>
+    if beVal m ≠ 0x5aa5 then false else
+    match splitAt? 2 r with
+    | none => false
+    | some (s, _) => beVal s == expected
 
 /-! ### StreamedPSBT (structured model of `vls-protocol/src/psbt.rs`)
 
